@@ -182,7 +182,12 @@ def c12(tier, seed):
     ms.append(model("thr-dyadic", ["S1", "H2"], ["quote", "rebal"], depth, fees="free", bids=(8,), spreads=(0, 8),
                     reqs=reqs_d, invariants=inv, properties=props, dyadic=True))
     ms.append(model("lots", ["S1", "H2"], ["quote", "trade", "rebal"], depth, fees="dy", bids=(8, 12), spreads=(0, 4),
-                    dqs=(-1, 2), reqs=reqs_l, maxrebal=2, invariants=inv, properties=props))
+                    dqs=(-1, 2), reqs=reqs_l, maxrebal=3 if tier == "quick" else 2, invariants=inv, properties=props))
+    # a fractional position left by fractional trading, then whole-lot liquidations: 5/2 -> sell 2 -> 1/2 left, which a
+    # further whole-lot rebalance must skip (not fail on)
+    ms.append(model("lots-residual", ["S1", "H2"], ["quote", "rebal"], 5, fees="free", bids=(8,), spreads=(0,),
+                    reqs=[req({"S1": F(5, 2)}, measure="lots"), req({}, fractional=False), req({"H2": F(1)}, measure="lots", fractional=False)],
+                    maxrebal=3, invariants=inv, properties=props))
     # relative requests (absolute=False): the allocation is a change from the current holdings; held contracts that are not
     # mentioned are left alone
     reqs_r = [req({"S1": F(1, 4)}, absolute=False), req({"S1": F(-1, 8), "H2": F(1, 4)}, absolute=False, thr=t16),
